@@ -1134,8 +1134,10 @@ func (n *nilAnalysis) fieldCheckedByProducer(ld *ssa.UnOp, at *ssa.BasicBlock) b
 }
 
 // nilDefaulted recognises the idiom
-//     if x.F == nil { x.F = &T{} }
-//     ... x.F.G ...
+//
+//	if x.F == nil { x.F = &T{} }
+//	... x.F.G ...
+//
 // for a field load: an If testing a load of the same field against nil
 // dominates the load, and its nil branch consists of a block that stores a
 // fresh allocation into that field before rejoining.
